@@ -86,6 +86,63 @@ def check_doc(ctx, doc, case):
             ctx.counters['special_shapes'][k.split(':')[0]] += v
 
 
+SEP = '\n<!-- sep -->\n\n'
+
+
+def shifted(toks, k):
+    out = []
+    for t in toks:
+        u = (t[0], t[1] + k if isinstance(t[1], int) else t[1], shifted(t[2], k))
+        out.append(u + (shifted([t[3]], k)[0],) if len(t) == 4 else u)
+    return out
+
+
+def check_repeated(ctx, text, case):
+    """Relational form (no expected tree needed): the text is parsed alone and then written twice into one document, the copies
+    separated by a blank line, an HTML comment and a blank line.  When the doubled document has the structure "tokens of the
+    single parse, the comment, the same tokens again" (anything else - a construct left open by the first copy, two lists that
+    merge - is skipped and counted), the first copy must report the lines of the single parse and the second copy those lines
+    plus the number of lines in between: a token's line is a function of where it stands, not of what it says or of what was
+    read before (the same text twice is what a result kept from an earlier read, keyed by content, gets wrong)."""
+    ctx.ev()
+    if not text.endswith('\n'):
+        text += '\n'
+    try:
+        single = actual_tokens(mt.parse(text, 'Html').children)
+        double = actual_tokens(mt.parse(text + SEP + text, 'Html').children)
+    except Exception as e:  # noqa
+        ctx.count('ambient', 'C01:' + mt.exc_site(e))
+        return
+    k = text.count('\n') + 3
+    want = single + [('HtmlBlock', text.count('\n') + 2, [])] + shifted(single, k)
+    if not single or not same_shape(want, double):
+        ctx.count('skipped', 'repeated: doubled document has another structure')
+        return
+    pairs = []
+    line_diffs(want, double, '', pairs)
+    bad = [(p, e, g) for p, e, g in pairs if e != g]
+    ctx.count('checked', 'block tokens of doubled documents', len(pairs))
+    for p, e, g in pairs:
+        ctx.counters['repeated_tokens_by_kind'][p.split('>')[-1]] += 1
+    if bad:
+        p, e, g = bad[0]
+        ctx.violation('line-number', 'same text twice: %s off by %s' % (p, (g - e) if isinstance(g, int) and isinstance(e, int) else 'n/a'), case,
+                      text=text + SEP + text, first_wrong='%s: expected line %s, token says %s' % (p, e, g), wrong=len(bad), of=len(pairs))
+        return
+    ctx.count('held', 'doubled documents')
+
+
+# look-ahead readers inside containers (a table / heading / fence / HTML block / list directly under a paragraph line, setext
+# underlines, definitions that give lines back), each inside list items and quotes, also two equal items in one list
+REPEAT_SOURCES = [
+    '- para\n  | a | b |\n  |---|---|\n  | c | d |\n', '1. x\n   a | b\n   --|--\n   c | d\n   e | f\n2. x\n   a | b\n   --|--\n   c | d\n   e | f\n',
+    '> para\n> | a |\n> |---|\n> | c |\n', '- > p\n  > a | b\n  > --|--\n  > c | d\n', '> - p\n>   a | b\n>   --|--\n>   c | d\n',
+    'p\na | b\n--|--\nc | d\n', '- p\n  # h\n  q\n  ```\n  f\n  ```\n  <div>\n  x\n  </div>\n', '- t\n  ===\n  u\n  ---\n- t\n  ===\n  u\n  ---\n',
+    '- [r]: /u\n  "t" x\n  y\n', '> [r]: /u\n> [s]: /v\n> p\n> q\n', '- a\n\n  | h |\n  |---|\n  | r |\n\n\n- b\n', '* a\n  - b\n    a | b\n    --|--\n  - b\n    a | b\n    --|--\n',
+    '-\n  p\n  a | b\n  --|--\n', '> \n> p\n> a | b\n> --|--\n', '- p\nlazy\n  a | b\n  --|--\n  c | d\n',
+]
+
+
 def check_seed(ctx, seed):
     rng = random.Random(seed)
     try:
@@ -94,6 +151,8 @@ def check_seed(ctx, seed):
         ctx.count('generator', 'rejected by own safety rules')
         return
     check_doc(ctx, doc, {'kind': 'generated', 'seed': seed})
+    if seed % 3 == 0:
+        check_repeated(ctx, doc.text, {'kind': 'generated-repeated', 'seed': seed})
     return doc
 
 
@@ -126,6 +185,12 @@ def run(ctx):
             d = D()
             d.text, d.tokens, d.stats = text, toks, {}
             check_doc(ctx, d, {'kind': 'pinned', 'index': i})
+    for i, text in enumerate(REPEAT_SOURCES):
+        if i % ctx.nshards == ctx.shard:
+            check_repeated(ctx, text, {'kind': 'repeated', 'index': i})
+    for i, ex in enumerate(workloads.spec()):
+        if i % ctx.nshards == ctx.shard:
+            check_repeated(ctx, ex['markdown'], {'kind': 'repeated-spec', 'example': ex['example']})
     base = ctx.seed * 1000003 + 17
     for i in range(sz['docs']):
         if i % ctx.nshards != ctx.shard:
@@ -152,16 +217,25 @@ def finalize(m, tier):
                 'continuation lines, link definitions before and between blocks, leading blank lines) are parsed under the Html token set; '
                 'every block token (Paragraph, Heading, SetextHeading, CodeFence, BlockCode, Quote, List, ListItem, Table, TableRow incl. '
                 'header, TableCell, ThematicBreak, HtmlBlock) must report the line on which the generator wrote its first character. '
-                'distinct_nontrivial = distinct documents with more than 2 block tokens',
+                'Relational form for every third generated document, the 652 spec examples and a hand-written family of look-ahead '
+                'readers inside containers: the text written twice into one document reports, for the second copy, the lines of the '
+                'single parse plus the distance. distinct_nontrivial = distinct documents with more than 2 block tokens',
         'inconclusive': inconclusive,
         'extra': {'block_tokens_checked': n, 'by_kind': m.c('tokens_by_kind'), 'distinct_nesting_paths': len(m.c('tokens_by_path')),
-                  'special_shapes_seen': special, 'skipped': m.c('skipped'), 'generator': m.c('generator')},
+                  'special_shapes_seen': special, 'doubled_documents_held': m.c('held').get('doubled documents', 0),
+                  'doubled_document_tokens_by_kind': m.c('repeated_tokens_by_kind'), 'skipped': m.c('skipped'), 'generator': m.c('generator')},
     }
 
 
 def replay(ctx, case):
     if case['kind'] == 'generated':
         check_seed(ctx, case['seed'])
+    elif case['kind'] == 'generated-repeated':
+        check_repeated(ctx, gen.generate(random.Random(case['seed']), profile='full').text, case)
+    elif case['kind'] == 'repeated':
+        check_repeated(ctx, REPEAT_SOURCES[case['index']], case)
+    elif case['kind'] == 'repeated-spec':
+        check_repeated(ctx, next(e for e in workloads.spec() if e['example'] == case['example'])['markdown'], case)
     else:
         class D:
             pass
